@@ -1,4 +1,583 @@
-From Coq Require Import Reals List Bool Lra.
+(* Proofs about Model/Dispersion.v (C07).  All statements are about the real-number model;
+   nothing here is about floating point. *)
+From Coq Require Import Reals List Bool Lra Lia.
+From Coquelicot Require Import Coquelicot.
+From Interval Require Import Tactic.
+From OSU.Lib Require Import DispAux.
 From OSU.Model Require Import Dispersion.
 Import ListNotations.
 Open Scope R_scope.
+
+Definition depth_ok (d : depth) : Prop := match d with Deep => True | Depth x => 0 < x end.
+Section Disp.
+Variable g : R.
+Hypothesis Hg : 0 < g.
+
+Lemma omega_arg_pos k d : 0 < k -> 0 < d -> 0 < g * k * tanh (k * d).
+Proof.
+  intros. apply Rmult_lt_0_compat. apply Rmult_lt_0_compat; auto.
+  apply tanh_pos. apply Rmult_lt_0_compat; auto.
+Qed.
+
+Lemma omega_pos k d : 0 < k -> depth_ok d -> 0 < omega g k d.
+Proof.
+  intros Hk Hd. destruct d as [|d]; simpl in *.
+  - apply sqrt_lt_R0. apply Rmult_lt_0_compat; auto.
+  - apply sqrt_lt_R0. apply omega_arg_pos; auto.
+Qed.
+
+Lemma omega_increasing k1 k2 d : 0 < k1 -> k1 < k2 -> depth_ok d -> omega g k1 d < omega g k2 d.
+Proof.
+  intros H1 H12 Hd. destruct d as [|d]; simpl in *.
+  - apply sqrt_lt_1_alt. split. left; apply Rmult_lt_0_compat; auto.
+    apply Rmult_lt_compat_l; auto.
+  - apply sqrt_lt_1_alt. split. left; apply omega_arg_pos; auto.
+    assert (T : tanh (k1 * d) < tanh (k2 * d)) by (apply tanh_incr; apply Rmult_lt_compat_r; auto).
+    assert (T1 : 0 < tanh (k1 * d)) by (apply tanh_pos; apply Rmult_lt_0_compat; auto).
+    assert (G : g * k1 < g * k2) by (apply Rmult_lt_compat_l; auto).
+    assert (G1 : 0 < g * k1) by (apply Rmult_lt_0_compat; auto).
+    apply Rle_lt_trans with (g * k1 * tanh (k2 * d)).
+    + apply Rmult_le_compat_l; lra.
+    + apply Rmult_lt_compat_r; lra.
+Qed.
+
+Lemma omega_injective k1 k2 d : 0 < k1 -> 0 < k2 -> depth_ok d -> omega g k1 d = omega g k2 d -> k1 = k2.
+Proof.
+  intros H1 H2 Hd E. destruct (Rtotal_order k1 k2) as [L|[L|L]]; auto.
+  - pose proof (omega_increasing k1 k2 d H1 L Hd). lra.
+  - pose proof (omega_increasing k2 k1 d H2 L Hd). lra.
+Qed.
+
+(* the exact root is increasing in w ... *)
+Lemma root_increasing_in_w k1 k2 d : 0 < k1 -> 0 < k2 -> depth_ok d ->
+  omega g k1 d < omega g k2 d -> k1 < k2.
+Proof.
+  intros H1 H2 Hd L. destruct (Rtotal_order k1 k2) as [C|[C|C]]; auto.
+  - subst. lra.
+  - pose proof (omega_increasing k2 k1 d H2 C Hd). lra.
+Qed.
+
+Lemma omega_increasing_in_depth k d1 d2 : 0 < k -> 0 < d1 -> d1 < d2 ->
+  omega g k (Depth d1) < omega g k (Depth d2).
+Proof.
+  intros Hk H1 H12. simpl. apply sqrt_lt_1_alt. split. left; apply omega_arg_pos; auto.
+  apply Rmult_lt_compat_l. apply Rmult_lt_0_compat; auto.
+  apply tanh_incr. apply Rmult_lt_compat_l; auto.
+Qed.
+
+Lemma omega_le_deep k d : 0 < k -> 0 < d -> omega g k (Depth d) < omega g k Deep.
+Proof.
+  intros Hk Hd. simpl. apply sqrt_lt_1_alt. split. left; apply omega_arg_pos; auto.
+  pose proof (tanh_lt_1 (k * d)). assert (0 < g * k) by (apply Rmult_lt_0_compat; auto).
+  apply Rlt_le_trans with (g * k * 1); [apply Rmult_lt_compat_l; auto | lra].
+Qed.
+
+(* ... and decreasing in depth (finite to finite, finite to deep) *)
+Lemma root_decreasing_in_depth k1 k2 d1 d2 w : 0 < k1 -> 0 < k2 -> 0 < d1 -> d1 < d2 ->
+  omega g k1 (Depth d1) = w -> omega g k2 (Depth d2) = w -> k2 < k1.
+Proof.
+  intros H1 H2 Hd1 Hd E1 E2. destruct (Rle_lt_dec k1 k2) as [C|C]; auto. exfalso.
+  pose proof (omega_increasing_in_depth k1 d1 d2 H1 Hd1 Hd) as A.
+  destruct C as [C|C].
+  - assert (Hd2 : depth_ok (Depth d2)) by (simpl; lra).
+    pose proof (omega_increasing k1 k2 (Depth d2) H1 C Hd2). lra.
+  - subst k2. lra.
+Qed.
+
+Lemma root_decreasing_to_deep k1 k2 d1 w : 0 < k1 -> 0 < k2 -> 0 < d1 ->
+  omega g k1 (Depth d1) = w -> omega g k2 Deep = w -> k2 < k1.
+Proof.
+  intros H1 H2 Hd1 E1 E2. destruct (Rle_lt_dec k1 k2) as [C|C]; auto. exfalso.
+  pose proof (omega_le_deep k1 d1 H1 Hd1) as A.
+  destruct C as [C|C].
+  - pose proof (omega_increasing k1 k2 Deep H1 C I). lra.
+  - subst k2. lra.
+Qed.
+
+(* ---------------- first guess ---------------- *)
+Lemma guess_pos w d : 0 < w -> depth_ok d -> 0 < guess g w d.
+Proof.
+  intros Hw Hd. destruct d as [|d]; simpl in *.
+  - destruct (Rgt_dec w 0); [|lra]. apply Rdiv_lt_0_compat; auto. apply Rmult_lt_0_compat; auto.
+  - destruct (Rgt_dec w (sqrt (g / d))).
+    + apply Rdiv_lt_0_compat; auto. apply Rmult_lt_0_compat; auto.
+    + apply Rdiv_lt_0_compat; auto. apply sqrt_lt_R0. apply Rmult_lt_0_compat; auto.
+Qed.
+
+Lemma sqrt_le_of_sq x w : 0 <= w -> x <= w * w -> sqrt x <= w.
+Proof.
+  intros Hw Hx. apply Rle_trans with (sqrt (w * w)). apply sqrt_le_1_alt; auto. rewrite sqrt_square; auto; lra.
+Qed.
+
+Lemma guess_below_root w d : 0 < w -> depth_ok d -> omega g (guess g w d) d <= w.
+Proof.
+  intros Hw Hd. destruct d as [|d]; simpl in *.
+  - destruct (Rgt_dec w 0); [|lra]. apply sqrt_le_of_sq. lra. right. field. lra.
+  - destruct (Rgt_dec w (sqrt (g / d))).
+    + apply sqrt_le_of_sq. lra.
+      pose proof (tanh_lt_1 (w * w / g * d)).
+      assert (E : g * (w * w / g) = w * w) by (field; lra). rewrite E.
+      assert (0 < w * w) by (apply Rmult_lt_0_compat; auto).
+      apply Rle_trans with (w * w * 1); [apply Rmult_le_compat_l; lra | lra].
+    + apply sqrt_le_of_sq. lra.
+      set (s := sqrt (g * d)). assert (Hs : 0 < s) by (apply sqrt_lt_R0; apply Rmult_lt_0_compat; auto).
+      assert (Ss : s * s = g * d) by (apply sqrt_sqrt; left; apply Rmult_lt_0_compat; auto).
+      assert (Hk : 0 < w / s) by (apply Rdiv_lt_0_compat; auto).
+      assert (Hkd : 0 <= w / s * d) by (left; apply Rmult_lt_0_compat; auto).
+      pose proof (tanh_le_x _ Hkd) as T.
+      apply Rle_trans with (g * (w / s) * (w / s * d)).
+      * apply Rmult_le_compat_l; auto. left. apply Rmult_lt_0_compat; auto.
+      * right. replace (g * (w / s) * (w / s * d)) with (w * w * (g * d) / (s * s)) by (field; lra).
+        rewrite Ss. field. split; lra.
+Qed.
+
+(* ---------------- Newton step ---------------- *)
+Lemma dstep_pos w k d : 0 < w -> 0 < k -> depth_ok d -> 0 < dstep w k d.
+Proof.
+  intros Hw Hk Hd. assert (H0 : 0 < 1 / 2 * w / k).
+  { apply Rdiv_lt_0_compat; auto. lra. }
+  destruct d as [|d]; simpl in *; auto.
+  destruct (Rgt_dec (k * d) 5); auto.
+  assert (Hkd : 0 < k * d) by (apply Rmult_lt_0_compat; auto).
+  assert (0 < sinh (2 * (k * d))) by (apply sinh_pos; lra).
+  assert (0 < k * d / sinh (2 * (k * d))) by (apply Rdiv_lt_0_compat; auto).
+  apply Rdiv_lt_0_compat; auto. apply Rmult_lt_0_compat; lra.
+Qed.
+
+Lemma newton_step_positive w k d : 0 < w -> 0 < k -> depth_ok d -> omega g k d <= w ->
+  k <= nstep g w d k /\ 0 < nstep g w d k.
+Proof.
+  intros Hw Hk Hd Hle. pose proof (dstep_pos w k d Hw Hk Hd) as Hp.
+  unfold nstep.
+  assert (0 <= (w - omega g k d) / dstep w k d).
+  { apply Rmult_le_pos. lra. left. apply Rinv_0_lt_compat; auto. }
+  replace ((omega g k d - w) / dstep w k d) with (- ((w - omega g k d) / dstep w k d)) by (field; lra).
+  lra.
+Qed.
+
+(* ---------------- loop exit through the tolerance test ---------------- *)
+Definition within (tol : R) (p : pt) (k : R) : Prop :=
+  Rabs (omega g k (snd p) - fst p) / fst p < tol.
+
+Lemma allconv_within tol ps ks : length ks = length ps -> allconv g tol ps ks = true ->
+  List.Forall2 (within tol) ps ks.
+Proof.
+  revert ks. induction ps as [|[w d] ps IH]; intros [|k ks] L H; simpl in *; try discriminate; constructor.
+  - apply andb_true_iff in H. destruct H as [H _]. unfold conv in H. unfold within. simpl.
+    destruct (Rlt_dec (Rabs (omega g k d - w) / w) tol); auto. discriminate.
+  - apply IH. lia. apply andb_true_iff in H. tauto.
+Qed.
+
+Lemma zipstep_length ps ks : length ks = length ps -> length (zipstep g ps ks) = length ps.
+Proof.
+  revert ks. induction ps as [|[w d] ps IH]; intros [|k ks] L; simpl in *; try discriminate; auto.
+Qed.
+
+Lemma newton_exit_tolerance tol fuel ps ks ks' : length ks = length ps ->
+  newton g tol fuel ps ks = (true, ks') -> List.Forall2 (within tol) ps ks'.
+Proof.
+  revert ks. induction fuel as [|n IH]; intros ks L H; simpl in H. discriminate.
+  destruct (allconv g tol ps (zipstep g ps ks)) eqn:E.
+  - inversion H; subst. apply allconv_within; auto. apply zipstep_length; auto.
+  - apply (IH (zipstep g ps ks)); auto. apply zipstep_length; auto.
+Qed.
+
+Lemma kinv_exit_tolerance tol fuel ps ks : kinv_batch g tol fuel ps = (true, ks) ->
+  List.Forall2 (within tol) ps ks.
+Proof.
+  unfold kinv_batch. apply newton_exit_tolerance. unfold guesses. apply map_length.
+Qed.
+
+Lemma within_abs tol p k : 0 < fst p -> within tol p k -> Rabs (omega g k (snd p) - fst p) < tol * fst p.
+Proof.
+  unfold within. intros Hw H. apply Rmult_lt_compat_r with (r := fst p) in H; auto.
+  unfold Rdiv in H. rewrite Rmult_assoc, Rinv_l, Rmult_1_r in H by lra. auto.
+Qed.
+
+Lemma newton_length tol fuel ps ks : length ks = length ps ->
+  length (snd (newton g tol fuel ps ks)) = length ps.
+Proof.
+  revert ks. induction fuel as [|n IH]; intros ks L; simpl; auto.
+  destruct (allconv g tol ps (zipstep g ps ks)); simpl.
+  - apply zipstep_length; auto.
+  - apply IH. apply zipstep_length; auto.
+Qed.
+
+Lemma kinv_length tol fuel ps : length (snd (kinv_batch g tol fuel ps)) = length ps.
+Proof. unfold kinv_batch. apply newton_length. unfold guesses. apply map_length. Qed.
+
+(* scalar call, default parameters *)
+Lemma kinv_scalar_tolerance w d ks : 0 < w -> kinv g w d = (true, ks) ->
+  exists k, ks = [k] /\ Rabs (omega g k d - w) < 1 / 1000 * w.
+Proof.
+  intros Hw H. apply kinv_exit_tolerance in H. inversion H as [|p k ps' ks' W F]; subst.
+  inversion F; subst. exists k. split; auto. apply (within_abs _ (w, d) k Hw W).
+Qed.
+End Disp.
+
+Lemma omega_derive g k d : 0 < g -> 0 < k -> 0 < d ->
+  is_derive (fun k => omega g k (Depth d)) k (n_exact k (Depth d) * phase g k (Depth d)).
+Proof.
+  intros Hg Hk Hd. unfold omega, n_exact, phase, omega, tanh.
+  assert (Hkd : 0 < k * d) by (apply Rmult_lt_0_compat; auto).
+  pose proof (cosh_pos (k * d)) as HC. pose proof (sinh_pos _ Hkd) as HS.
+  auto_derive.
+  - split. lra. split; auto. apply Rmult_lt_0_compat. apply Rmult_lt_0_compat; auto.
+    apply Rmult_lt_0_compat; auto. apply Rinv_0_lt_compat; auto.
+  - rewrite sinh_2x. pose proof (cosh2_sinh2 (k * d)) as CS.
+    change (sinh (k * d) / cosh (k * d)) with (sinh (k * d) * / cosh (k * d)).
+    set (S := sinh (k * d)) in *. set (C := cosh (k * d)) in *.
+    assert (Hu : 0 < g * k * (S * / C)).
+    { apply Rmult_lt_0_compat. apply Rmult_lt_0_compat; auto. apply Rmult_lt_0_compat; auto. apply Rinv_0_lt_compat; auto. }
+    pose proof (sqrt_lt_R0 _ Hu) as Hs. pose proof (sqrt_sqrt _ (Rlt_le _ _ Hu)) as Hss.
+    set (s := sqrt (g * k * (S * / C))) in *.
+    transitivity ((g * S / C + g * k * d * (C * C - S * S) / (C * C)) / (2 * s)).
+    { field. split; lra. }
+    rewrite CS.
+    transitivity ((1 / 2 + k * d / (2 * S * C)) * (s * s) / (k * s)).
+    { rewrite Hss. field. repeat split; lra. }
+    field. repeat split; lra.
+Qed.
+
+Section Disp2.
+Variable g : R.
+Hypothesis Hg : 0 < g.
+
+(* ---------------- deep water is exact ---------------- *)
+Lemma omega_deep_guess w : 0 < w -> omega g (w * w / g) Deep = w.
+Proof.
+  intros Hw. simpl. replace (g * (w * w / g)) with (w * w) by (field; lra). apply sqrt_square; lra.
+Qed.
+
+Lemma nstep_deep_fixed w : 0 < w -> nstep g w Deep (w * w / g) = w * w / g.
+Proof.
+  intros Hw. unfold nstep. rewrite omega_deep_guess by auto.
+  replace (w - w) with 0 by ring. unfold Rdiv at 2. rewrite Rmult_0_l. ring.
+Qed.
+
+Definition deep_exact (p : pt) (k : R) : Prop := snd p = Deep -> k = fst p * fst p / g.
+
+Lemma guesses_deep_exact ps : List.Forall (fun p => 0 < fst p) ps -> Forall2 deep_exact ps (guesses g ps).
+Proof.
+  induction 1 as [|[w d] ps Hw _ IH]; simpl; constructor; auto.
+  intros E. simpl in *. subst d. simpl. destruct (Rgt_dec w 0); auto. lra.
+Qed.
+
+Lemma zipstep_deep_exact ps ks : List.Forall (fun p => 0 < fst p) ps ->
+  Forall2 deep_exact ps ks -> Forall2 deep_exact ps (zipstep g ps ks).
+Proof.
+  intros Hp H. induction H as [|[w d] k ps ks Hk _ IH]; simpl; constructor.
+  - intros E. simpl in *. subst d. rewrite (Hk eq_refl). simpl. inversion Hp; subst. apply nstep_deep_fixed; auto.
+  - inversion Hp; subst. auto.
+Qed.
+
+Lemma newton_deep_exact tol fuel ps ks : List.Forall (fun p => 0 < fst p) ps ->
+  Forall2 deep_exact ps ks -> Forall2 deep_exact ps (snd (newton g tol fuel ps ks)).
+Proof.
+  intros Hp. revert ks. induction fuel as [|n IH]; intros ks H; simpl; auto.
+  destruct (allconv g tol ps (zipstep g ps ks)); simpl.
+  - apply zipstep_deep_exact; auto.
+  - apply IH. apply zipstep_deep_exact; auto.
+Qed.
+
+(* every deep-water element of any batch, whatever the other elements need, is w^2/g exactly *)
+Lemma kinv_deep_exact tol fuel ps : List.Forall (fun p => 0 < fst p) ps ->
+  Forall2 deep_exact ps (snd (kinv_batch g tol fuel ps)).
+Proof.
+  intros. unfold kinv_batch. apply newton_deep_exact; auto. apply guesses_deep_exact; auto.
+Qed.
+
+Lemma newton_deep_one tol n w : 0 < w -> 0 < tol ->
+  newton g tol (S n) [(w, Deep)] [w * w / g] = (true, [w * w / g]).
+Proof.
+  intros Hw Ht. cbn [newton zipstep allconv]. rewrite nstep_deep_fixed by auto.
+  unfold conv. rewrite omega_deep_guess by auto.
+  replace (w - w) with 0 by ring. rewrite Rabs_R0. replace (0 / w) with 0 by (unfold Rdiv; ring).
+  destruct (Rlt_dec 0 tol); [reflexivity | lra].
+Qed.
+
+Lemma kinv_deep_scalar w : 0 < w -> kinv g w Deep = (true, [w * w / g]).
+Proof.
+  intros Hw. unfold kinv, kinv_batch, guesses. cbn [map fst snd guess].
+  destruct (Rgt_dec w 0); [|lra]. apply (newton_deep_one tol_default 9 w Hw). unfold tol_default. lra.
+Qed.
+
+(* ---------------- group / phase ratio ---------------- *)
+Lemma x_over_sinh2x x : 0 < x -> 0 < x / sinh (2 * x) < 1 / 2.
+Proof.
+  intros Hx. assert (H2 : 2 * x < sinh (2 * x)) by (apply sinh_gt_x; lra).
+  split. apply Rdiv_lt_0_compat; lra.
+  apply Rmult_lt_reg_r with (sinh (2 * x)). lra.
+  unfold Rdiv. rewrite Rmult_assoc, Rinv_l by lra. lra.
+Qed.
+
+Lemma ratio_range k d : 0 < k -> depth_ok d -> 1 / 2 <= n_ratio k d <= 1.
+Proof.
+  intros Hk Hd. destruct d as [|d]; simpl in *. lra.
+  destruct (Rgt_dec (k * d) 5). lra.
+  assert (Hkd : 0 < k * d) by (apply Rmult_lt_0_compat; auto).
+  pose proof (x_over_sinh2x _ Hkd). lra.
+Qed.
+
+Lemma n_exact_range k d : 0 < k -> depth_ok d -> 1 / 2 <= n_exact k d <= 1.
+Proof.
+  intros Hk Hd. destruct d as [|d]; simpl in *. lra.
+  assert (Hkd : 0 < k * d) by (apply Rmult_lt_0_compat; auto).
+  pose proof (x_over_sinh2x _ Hkd). lra.
+Qed.
+
+(* the kd > 5 shortcut: x / sinh 2x < 5e-4 for x > 5 *)
+Lemma shortcut_gap x : 5 < x -> x / sinh (2 * x) < 5 / 10000.
+Proof.
+  intros Hx.
+  assert (E10 : 22026 < exp 10) by interval.
+  assert (Em : exp (- (2 * x)) < 1).
+  { rewrite <- exp_0. apply exp_increasing. lra. }
+  assert (Ep : exp 10 * (1 + (2 * x - 10)) <= exp (2 * x)).
+  { replace (2 * x) with (10 + (2 * x - 10)) at 2 by ring. rewrite exp_plus.
+    apply Rmult_le_compat_l. left; apply exp_pos. left. apply exp_ineq1. lra. }
+  assert (Hs : 2000 * x < sinh (2 * x)).
+  { unfold sinh.
+    assert (22026 * (1 + (2 * x - 10)) <= exp 10 * (1 + (2 * x - 10))) by (apply Rmult_le_compat_r; lra).
+    lra. }
+  apply Rmult_lt_reg_r with (sinh (2 * x)). lra.
+  unfold Rdiv at 1. rewrite Rmult_assoc, Rinv_l by lra. lra.
+Qed.
+End Disp2.
+
+
+(* ---------------- group velocity is d omega / dk ---------------- *)
+Lemma omega_derive_deep g k : 0 < g -> 0 < k ->
+  is_derive (fun k => omega g k Deep) k (n_exact k Deep * phase g k Deep).
+Proof.
+  intros Hg Hk. unfold omega, n_exact, phase, omega.
+  assert (Hu : 0 < g * k) by (apply Rmult_lt_0_compat; auto).
+  auto_derive.
+  - exact Hu.
+  - pose proof (sqrt_lt_R0 _ Hu) as Hs. pose proof (sqrt_sqrt _ (Rlt_le _ _ Hu)) as Hss.
+    set (s := sqrt (g * k)) in *.
+    transitivity (1 / 2 * (s * s) / (k * s)). rewrite Hss. field. split; lra. field. split; lra.
+Qed.
+
+Lemma cg_is_derivative g k d : 0 < g -> 0 < k -> depth_ok d ->
+  exists D, is_derive (fun k => omega g k d) k D /\ 0 < D /\
+            Rabs (cg g k d - D) <= 1 / 1000 * D /\
+            (match d with Deep => True | Depth dd => k * dd <= 5 end -> cg g k d = D).
+Proof.
+  intros Hg Hk Hd. exists (n_exact k d * phase g k d).
+  assert (Hph : 0 < phase g k d).
+  { unfold phase. apply Rdiv_lt_0_compat; auto. apply omega_pos; auto. }
+  pose proof (n_exact_range k d Hk Hd) as Hn.
+  assert (HD : 0 < n_exact k d * phase g k d) by (apply Rmult_lt_0_compat; lra).
+  split; [|split; [auto|]].
+  - destruct d as [|d]. apply omega_derive_deep; auto. apply omega_derive; auto.
+  - unfold cg. destruct d as [|d]; simpl in Hd.
+    + simpl n_ratio. simpl n_exact. split; [|auto].
+      replace (1 / 2 * phase g k Deep - 1 / 2 * phase g k Deep) with 0 by ring. rewrite Rabs_R0. simpl in HD. lra.
+    + simpl n_ratio. simpl n_exact in *. destruct (Rgt_dec (k * d) 5) as [L|L].
+      * split; [|intros; lra].
+        pose proof (shortcut_gap (k * d) L) as Gp.
+        assert (Hkd : 0 < k * d) by lra. pose proof (x_over_sinh2x _ Hkd) as [E0 _].
+        set (e := k * d / sinh (2 * (k * d))) in *.
+        replace (1 / 2 * phase g k (Depth d) - (1 / 2 + e) * phase g k (Depth d)) with (- (e * phase g k (Depth d))) by ring.
+        rewrite Rabs_Ropp, Rabs_right by (apply Rle_ge; apply Rmult_le_pos; lra).
+        replace (1 / 1000 * ((1 / 2 + e) * phase g k (Depth d))) with ((1 / 1000 * (1 / 2 + e)) * phase g k (Depth d)) by ring.
+        apply Rmult_le_compat_r; lra.
+      * split; [|auto].
+        replace ((1 / 2 + k * d / sinh (2 * (k * d))) * phase g k (Depth d) - (1 / 2 + k * d / sinh (2 * (k * d))) * phase g k (Depth d)) with 0 by ring.
+        rewrite Rabs_R0. lra.
+Qed.
+
+(* group / phase ratio of the implemented group velocity *)
+Lemma cg_over_phase g k d : 0 < g -> 0 < k -> depth_ok d ->
+  1 / 2 <= cg g k d / phase g k d <= 1.
+Proof.
+  intros Hg Hk Hd. assert (Hph : 0 < phase g k d).
+  { unfold phase. apply Rdiv_lt_0_compat; auto. apply omega_pos; auto. }
+  unfold cg. replace (n_ratio k d * phase g k d / phase g k d) with (n_ratio k d) by (field; lra).
+  apply ratio_range; auto.
+Qed.
+
+(* ---------------- where the exact root lies (limits) ---------------- *)
+Lemma root_bounds g k w d : 0 < g -> 0 < k -> 0 < d -> 0 < w -> omega g k (Depth d) = w ->
+  w * w / g < k /\ w / sqrt (g * d) <= k /\ k <= w * w / (g * tanh (w * w / g * d)).
+Proof.
+  intros Hg Hk Hd Hw E.
+  assert (Hu : 0 < g * k * tanh (k * d)) by (apply omega_arg_pos; auto).
+  assert (E2 : g * k * tanh (k * d) = w * w).
+  { rewrite <- E. simpl. symmetry. apply sqrt_sqrt. lra. }
+  assert (Hkd : 0 < k * d) by (apply Rmult_lt_0_compat; auto).
+  pose proof (tanh_lt_1 (k * d)) as T1. pose proof (tanh_pos _ Hkd) as T0.
+  assert (Hgk : 0 < g * k) by (apply Rmult_lt_0_compat; auto).
+  assert (B1 : w * w / g < k).
+  { apply Rmult_lt_reg_r with g; auto. unfold Rdiv. rewrite Rmult_assoc, Rinv_l, Rmult_1_r by lra.
+    rewrite <- E2. rewrite (Rmult_comm k g).
+    apply Rlt_le_trans with (g * k * 1); [apply Rmult_lt_compat_l; auto | lra]. }
+  split; auto. split.
+  - assert (Hs : 0 < sqrt (g * d)) by (apply sqrt_lt_R0; apply Rmult_lt_0_compat; auto).
+    apply Rmult_le_reg_r with (sqrt (g * d)); auto.
+    unfold Rdiv. rewrite Rmult_assoc, Rinv_l, Rmult_1_r by lra.
+    rewrite <- (sqrt_square w) by lra. rewrite <- (sqrt_square k) at 1 by lra.
+    rewrite <- sqrt_mult_alt by (apply Rmult_le_pos; lra).
+    apply sqrt_le_1_alt. rewrite <- E2.
+    pose proof (tanh_le_x (k * d) (Rlt_le _ _ Hkd)).
+    apply Rle_trans with (g * k * (k * d)). apply Rmult_le_compat_l; lra. right; ring.
+  - assert (Hx : 0 < w * w / g * d).
+    { apply Rmult_lt_0_compat; auto. apply Rdiv_lt_0_compat; auto. apply Rmult_lt_0_compat; auto. }
+    pose proof (tanh_pos _ Hx) as Tx.
+    assert (Tm : tanh (w * w / g * d) < tanh (k * d)) by (apply tanh_incr; apply Rmult_lt_compat_r; auto).
+    set (T := tanh (w * w / g * d)) in *.
+    apply Rmult_le_reg_r with (g * T). apply Rmult_lt_0_compat; auto.
+    replace (w * w / (g * T) * (g * T)) with (w * w) by (field; split; lra).
+    rewrite <- E2. replace (k * (g * T)) with (g * k * T) by ring.
+    apply Rmult_le_compat_l; lra.
+Qed.
+
+Section Scale.
+Variable g : R.
+Hypothesis Hg : 0 < g.
+
+(* dimensionless frequency and wavenumber *)
+Definition xnd (w d : R) : R := w * sqrt (d / g).
+
+Lemma sqrt_dg d : 0 < d -> sqrt (d / g) * sqrt (g / d) = 1.
+Proof.
+  intros Hd. rewrite <- sqrt_mult_alt. replace (d / g * (g / d)) with 1 by (field; lra). apply sqrt_1.
+  left. apply Rdiv_lt_0_compat; auto.
+Qed.
+
+Lemma omega_scale k d : 0 < d ->
+  omega g k (Depth d) = sqrt (g / d) * omega 1 (k * d) (Depth 1).
+Proof.
+  intros Hd. simpl. rewrite <- sqrt_mult_alt by (left; apply Rdiv_lt_0_compat; auto).
+  f_equal. rewrite Rmult_1_r. field. lra.
+Qed.
+
+Lemma guess_scale w d : 0 < w -> 0 < d ->
+  guess g w (Depth d) * d = guess 1 (xnd w d) (Depth 1).
+Proof.
+  intros Hw Hd. unfold xnd. simpl.
+  pose proof (sqrt_dg d Hd) as E.
+  assert (P1 : 0 < sqrt (d / g)) by (apply sqrt_lt_R0; apply Rdiv_lt_0_compat; auto).
+  assert (P2 : 0 < sqrt (g / d)) by (apply sqrt_lt_R0; apply Rdiv_lt_0_compat; auto).
+  assert (S1 : sqrt (d / g) * sqrt (d / g) = d / g) by (apply sqrt_sqrt; left; apply Rdiv_lt_0_compat; auto).
+  replace (1 / 1) with 1 by field. rewrite Rmult_1_r, sqrt_1.
+  assert (C : w > sqrt (g / d) <-> w * sqrt (d / g) > 1).
+  { split; intros H.
+    - apply Rmult_gt_compat_r with (r := sqrt (d / g)) in H; auto. rewrite (Rmult_comm (sqrt (g / d))) in H. lra.
+    - apply Rmult_gt_compat_r with (r := sqrt (g / d)) in H; auto. rewrite Rmult_assoc, E in H. lra. }
+  destruct (Rgt_dec w (sqrt (g / d))) as [A|A]; destruct (Rgt_dec (w * sqrt (d / g)) 1) as [B|B]; try tauto.
+  - replace (w * sqrt (d / g) * (w * sqrt (d / g)) / 1) with (w * w * (sqrt (d / g) * sqrt (d / g))) by field.
+    rewrite S1. field. lra.
+  - (* w / sqrt (g d) * d = w sqrt(d/g) *)
+    assert (Sgd : sqrt (g * d) = g * sqrt (d / g)).
+    { replace (g * d) with (g * g * (d / g)) by (field; lra).
+      rewrite sqrt_mult_alt by (left; apply Rmult_lt_0_compat; auto). rewrite sqrt_square; lra. }
+    rewrite Sgd. unfold Rdiv at 3. rewrite Rinv_1, Rmult_1_r.
+    replace (w / (g * sqrt (d / g)) * d) with (w * (d / g) / sqrt (d / g)) by (field; split; lra).
+    rewrite <- S1 at 1. field. lra.
+Qed.
+
+Lemma dstep_scale w k d : 0 < w -> 0 < d -> k <> 0 ->
+  dstep w k (Depth d) = sqrt (g / d) * d * dstep (xnd w d) (k * d) (Depth 1).
+Proof.
+  intros Hw Hd Hk. unfold xnd. simpl. rewrite !Rmult_1_r.
+  pose proof (sqrt_dg d Hd) as E.
+  assert (P1 : 0 < sqrt (d / g)) by (apply sqrt_lt_R0; apply Rdiv_lt_0_compat; auto).
+  set (a := sqrt (d / g)) in *. set (c := sqrt (g / d)) in *.
+  assert (X : w / k = c * d * (w * a / (k * d))).
+  { replace (c * d * (w * a / (k * d))) with ((a * c) * (w / k)) by (field; split; lra). rewrite E. ring. }
+  destruct (Rgt_dec (k * d) 5).
+  - unfold Rdiv at 1. unfold Rdiv in X. rewrite Rmult_assoc, X. field. split; lra.
+  - set (N := 1 / 2 + k * d / sinh (2 * (k * d))).
+    unfold Rdiv at 1. unfold Rdiv in X. rewrite Rmult_assoc, X. field. split; lra.
+Qed.
+
+Lemma w_scale w d : 0 < d -> w = sqrt (g / d) * xnd w d.
+Proof.
+  intros Hd. unfold xnd. pose proof (sqrt_dg d Hd) as E.
+  replace (sqrt (g / d) * (w * sqrt (d / g))) with (w * (sqrt (d / g) * sqrt (g / d))) by ring.
+  rewrite E. ring.
+Qed.
+
+Lemma nstep_scale w k d : 0 < w -> 0 < d ->
+  nstep g w (Depth d) k * d = nstep 1 (xnd w d) (Depth 1) (k * d).
+Proof.
+  intros Hw Hd. destruct (Req_dec k 0) as [K|K].
+  - subst k. unfold nstep.
+    assert (Z1 : dstep w 0 (Depth d) = 0).
+    { simpl. destruct (Rgt_dec (0 * d) 5); unfold Rdiv; rewrite Rinv_0; ring. }
+    assert (Z2 : dstep (xnd w d) (0 * d) (Depth 1) = 0).
+    { replace (0 * d) with 0 by ring. simpl. destruct (Rgt_dec (0 * 1) 5); unfold Rdiv; rewrite Rinv_0; ring. }
+    rewrite Z1, Z2. unfold Rdiv. rewrite Rinv_0. ring.
+  - unfold nstep. rewrite (omega_scale k d Hd), (dstep_scale w k d Hw Hd K).
+    set (D := dstep (xnd w d) (k * d) (Depth 1)).
+    set (O := omega 1 (k * d) (Depth 1)).
+    assert (P2 : 0 < sqrt (g / d)) by (apply sqrt_lt_R0; apply Rdiv_lt_0_compat; auto).
+    destruct (Req_dec D 0) as [Z|Z].
+    + rewrite Z, Rmult_0_r. unfold Rdiv. rewrite Rinv_0. ring.
+    + rewrite (w_scale w d Hd) at 1. set (c := sqrt (g / d)) in *. field. repeat split; lra.
+Qed.
+
+Lemma conv_scale tol w k d : 0 < w -> 0 < d ->
+  conv g tol w (Depth d) k = conv 1 tol (xnd w d) (Depth 1) (k * d).
+Proof.
+  intros Hw Hd. unfold conv. rewrite (omega_scale k d Hd).
+  assert (P2 : 0 < sqrt (g / d)) by (apply sqrt_lt_R0; apply Rdiv_lt_0_compat; auto).
+  assert (P1 : 0 < sqrt (d / g)) by (apply sqrt_lt_R0; apply Rdiv_lt_0_compat; auto).
+  assert (Px : 0 < xnd w d) by (unfold xnd; apply Rmult_lt_0_compat; auto).
+  set (O := omega 1 (k * d) (Depth 1)).
+  assert (E : Rabs (sqrt (g / d) * O - w) / w = Rabs (O - xnd w d) / xnd w d).
+  { rewrite (w_scale w d Hd) at 1 2. set (c := sqrt (g / d)) in *.
+    replace (c * O - c * xnd w d) with (c * (O - xnd w d)) by ring.
+    rewrite Rabs_mult, (Rabs_right c) by lra. field. split; lra. }
+  rewrite E. reflexivity.
+Qed.
+
+(* the batch: every element has a finite positive depth and positive frequency *)
+Definition finite_pt (p : pt) : Prop := 0 < fst p /\ exists d, snd p = Depth d /\ 0 < d.
+Definition depth_of (p : pt) : R := match snd p with Deep => 1 | Depth d => d end.
+Definition nd_pt (p : pt) : pt := (xnd (fst p) (depth_of p), Depth 1).
+Definition nd_ks (ps : list pt) (ks : list R) : list R := map2 (fun p k => k * depth_of p) ps ks.
+
+Lemma zipstep_scale ps ks : List.Forall finite_pt ps ->
+  nd_ks ps (zipstep g ps ks) = zipstep 1 (map nd_pt ps) (nd_ks ps ks).
+Proof.
+  intros H. revert ks. induction H as [|[w dd] ps [Hw [d [E Hd]]] _ IH]; intros [|k ks]; simpl; auto.
+  simpl in *. subst dd. unfold nd_ks in *. cbn [map2 depth_of snd fst nd_pt zipstep]. unfold depth_of. cbn [snd].
+  f_equal. apply nstep_scale; auto. apply IH.
+Qed.
+
+Lemma allconv_scale tol ps ks : List.Forall finite_pt ps ->
+  allconv g tol ps ks = allconv 1 tol (map nd_pt ps) (nd_ks ps ks).
+Proof.
+  intros H. revert ks. induction H as [|[w dd] ps [Hw [d [E Hd]]] _ IH]; intros [|k ks]; simpl; auto.
+  simpl in *. subst dd. unfold nd_ks in *. cbn [map2 depth_of snd fst nd_pt allconv]. unfold depth_of. cbn [snd].
+  f_equal. apply conv_scale; auto. apply IH.
+Qed.
+
+Lemma newton_scale tol fuel ps ks : List.Forall finite_pt ps ->
+  newton 1 tol fuel (map nd_pt ps) (nd_ks ps ks)
+  = (fst (newton g tol fuel ps ks), nd_ks ps (snd (newton g tol fuel ps ks))).
+Proof.
+  intros H. revert ks. induction fuel as [|n IH]; intros ks; simpl; auto.
+  rewrite <- zipstep_scale, <- allconv_scale by auto.
+  destruct (allconv g tol ps (zipstep g ps ks)); simpl; auto.
+Qed.
+
+Lemma guesses_scale ps : List.Forall finite_pt ps ->
+  nd_ks ps (guesses g ps) = guesses 1 (map nd_pt ps).
+Proof.
+  induction 1 as [|[w dd] ps [Hw [d [E Hd]]] _ IH]; simpl; auto.
+  simpl in *. subst dd. unfold nd_ks in *. cbn [map2]. unfold depth_of. cbn [snd fst].
+  f_equal. apply guess_scale; auto. apply IH.
+Qed.
+
+(* the two-parameter solver collapses to the one-parameter dimensionless solver *)
+Lemma scale_invariance tol fuel ps : List.Forall finite_pt ps ->
+  kinv_batch 1 tol fuel (map nd_pt ps)
+  = (fst (kinv_batch g tol fuel ps), nd_ks ps (snd (kinv_batch g tol fuel ps))).
+Proof.
+  intros H. unfold kinv_batch. rewrite <- guesses_scale by auto. apply newton_scale; auto.
+Qed.
+End Scale.
